@@ -467,6 +467,11 @@ def gen_plan(r, codec, input_full, params, allow_overlap=True):
             falsy.append(p)            # passed as "", 0, [], {} — given for the exclusion check, invisible on the wire
             continue
         set_path(full, p, nondefault(r, codec, fd))
+        if fd.containing_oneof is not None and not fd.containing_oneof.name.startswith("_"):
+            parent = get_path(full, p.rsplit(".", 1)[0]) if "." in p else full      # a oneof holds one member
+            for other in fd.containing_oneof.fields:
+                if other.name != fd.name and isinstance(parent, dict):
+                    parent.pop(other.name, None)
         given.append(p)
     return given, falsy, codec.normal(input_full, full)
 
@@ -674,6 +679,9 @@ def classify(kind, flags, plan=None, msg=""):
         if kind in ("async-kwargs-raised", "sync-async") and "cross-dotted" in flags and "has no" in msg:
             return "async-cross-package-dotted-key:ctor-valueerror"
         if kind in ("async-kwargs-vs-request", "sync-async") and overlapping(given):
+            return "overlapping-keys:async-extends"
+        # (a repeated key of a raw protobuf owner is EXTENDED by the sync client too since fix: 9d33fc0: same finding, both clients)
+        if kind == "sync-kwargs-vs-request" and overlapping(given) and any(p in rawrep for p in given):
             return "overlapping-keys:async-extends"
         if kind == "sync-async" and any("." in p for p in falsy) and not msg:
             return "falsy-dotted-container:parents-present-in-sync-only"
